@@ -75,23 +75,27 @@ CLAIMED = {
         technique="Lean 4 invariant proofs over an executable state machine + differential correspondence check on the real connection object",
     ),
     "C15": dict(
-        category="other",
-        text="PARTIAL. The sticky assignor is ported to Lean (Model/StickyAlg.lean) and every explored round is compared "
-             "byte for byte with the real assignor. Proved for every state of the port: c15_fixpoint_partial — a complete "
-             "assignment that the code's own _is_balanced accepts (after the fixed consumers are set aside) is a fixpoint "
-             "of balance(): every consumer keeps exactly its list (clause (a) under that hypothesis; the check counts how "
-             "often the hypothesis holds on explored second rounds: about 89 %). Clauses (b) and (c) have no ∀-input "
-             "theorem. Also machine-checked: the three stickiness clauses as Lean functions over two consecutive "
-             "assignments with soundness lemmas (a true verdict means: owners unchanged / a survivor's partition stays with "
-             "it / a partition owned by an old member was already its own), and the round trip of the real user-data "
-             "struct (instance of C11's generic theorem over the regenerated schema). The check evaluates those Lean "
-             "statements on the real assignor for first rounds from the property's bounded space (slice in quick, all in "
-             "thorough) followed by identical / minus-subset / plus-members second rounds, and random 5-round chains, with "
-             "previous assignments carried through the real encoding; non-termination and exceptions are findings.",
-        design="3/C15",
-        note="trusted: Lean kernel for the statement soundness lemmas; everything about the algorithm itself is only "
-             "explored, not proved. Stub ClusterMetadata; zero-padded names.",
-        technique="Lean-defined statements (soundness proved) evaluated on the real assignor over a bounded exhaustive + random space",
+        text="PARTIAL proof. The sticky assignor is ported to Lean (Model/StickyAlg.lean) and every explored round is "
+             "compared byte for byte with the real assignor. Proved for the port, for every cluster layout, number of "
+             "members and partitions, oracle and fuel >= 1: c15_identical_subscriptions_keep — when all members subscribe "
+             "to the same topics, no member is new and the user data is well formed with sizes within one of each other "
+             "(what a valid balanced previous round leaves to the survivors), the assignor returns normally and every "
+             "member keeps every partition it held; departed members' and new partitions are handed out without moving "
+             "anything (clauses (a) and (b) for identical subscriptions; hypotheses decided by keepHyp, counted per run). "
+             "For arbitrary subscriptions: c15_keeps_when_fill_balanced_partial / c15_fixpoint_partial, conditional on the "
+             "code's own _is_balanced accepting the assignment once the unassigned partitions are handed out (holds on "
+             "about 89 % of explored second rounds). NOT proved: clause (c) (new members) and clause (a) for non-identical "
+             "subscriptions without that hypothesis. Also machine-checked: the three stickiness clauses as Lean functions "
+             "with soundness lemmas and the round trip of the real user-data struct (instance of C11's theorem over the "
+             "regenerated schema). The check evaluates those statements on the real assignor for first rounds from the "
+             "property's bounded space (slice in quick, all in thorough) followed by identical / minus-subset / "
+             "plus-members second rounds, and random 5-round chains, with previous assignments carried through the real "
+             "encoding; non-termination and exceptions are findings.",
+        design="0.3/C15",
+        note="trusted: Lean kernel; the port is tied to the code only by T-diff (byte-identical results, the one "
+             "set-iteration choice recorded as oracle); single-generation user data (what the real coordinator produces); "
+             "stub ClusterMetadata; zero-padded names. Clause (c) is explored, not proved.",
+        technique="Lean 4 proof about a port of the algorithm (invariants over the fill loop, initial-state characterisation) + byte-identical T-diff + Lean-defined statements evaluated on the real assignor",
     ),
     "C18": dict(
         text="Machine-checked (Lean 4) theorems about an executable model of ScramAuthenticator over uninterpreted "
